@@ -192,7 +192,9 @@ Definition rel_close (a b : Qc) : bool := Qc_leb (Qc_abs (a - b)) (Q2Qc (1 # 100
                 y = gens.values(rng, n, "dyadic")
             cases.append({"x": x, "y": y, "kind": kind, "scale": rng.choice([None, None, 4.0, -3.0, 0.5]),
                           "entry": rng.choice(["weaver.smooth", "weaver.to_function", "weaver.to_function_default", "spline_smooth", "match_s"]),
-                          "s": rng.choice([0.0, 0.0, None, 1e-4, 0.01, 1.0, 100.0])})
+                          "s": rng.choice([0.0, 0.0, None, 1e-4, 0.01, 1.0, 100.0]),
+                          # the same request made earlier in the object's life, before a change of the abscissae only
+                          "history": rng.choice([None, None, "shift_x", "scale_x", "shift_x+scale_y"])})
         return cases
 
     def run(self, c):
@@ -218,7 +220,29 @@ Definition rel_close (a b : Qc) : bool := Qc_leb (Qc_abs (a - b)) (Q2Qc (1 # 100
                 # the smoothing condition is stated on the series as it is when smooth / to_function is called:
                 # an earlier scale_y (of the unscaled values) must not change what reaches FITPACK
                 k = c.get("scale")
-                return Weaver(x, y / k).scale_y(k) if k else Weaver(x, y)
+                h = c.get("history")
+                if not h:
+                    return Weaver(x, y / k).scale_y(k) if k else Weaver(x, y)
+                # exact inverse maps (dyadic abscissae): the object ends in the state (x, y) after having answered the same
+                # request in an earlier state
+                x0 = (x - 4.0) if h.startswith("shift_x") else (x / 2.0) if h == "scale_x" else (x - x[0]) / (x[-1] - x[0])
+                w = Weaver(x0, y / 2.0 if h.endswith("scale_y") else y)
+                if c["entry"] == "weaver.smooth":
+                    w.to_function(c["s"] if c["s"] is not None else 0)
+                elif c["entry"] == "weaver.to_function_default":
+                    w.to_function()
+                else:
+                    w.to_function(c["s"])
+                if h.startswith("shift_x"):
+                    w.shift_x(4.0)
+                elif h == "scale_x":
+                    w.scale_x(2.0)
+                else:
+                    w.normalize_x(float(x[0]), float(x[-1]))
+                if h.endswith("scale_y"):
+                    w.scale_y(2.0)
+                del calls[:]
+                return w
             if c["entry"] == "weaver.smooth":
                 w = mk().smooth(c["s"])
                 out = {"x": w.x.tolist(), "y": w.y.tolist()}
@@ -270,20 +294,21 @@ Definition rel_close (a b : Qc) : bool := Qc_leb (Qc_abs (a - b)) (Q2Qc (1 # 100
         if "exc" in o:
             fail("raises", o["exc_msg"])
             return F
-        if len(o["calls"]) != 1:
-            fail("fitpack-calls", "splrep called %d times" % len(o["calls"]))
-            return F
-        call = o["calls"][0]
+        # how often FITPACK is entered is not part of the property (a correct memoisation would enter it 0 times; the model
+        # comparison, not this oracle, notices a changed call pattern): what reached it is judged on the last call, the
+        # returned values are judged in every case
+        call = o["calls"][-1] if o["calls"] else None
         y = np.array(c["y"])
         _, s = self.s_expected(c)
         s_exp = s if s is not None else len(y) * float(np.var(y))
-        got = call["kwargs"].get("s")
-        if got is None or abs(got - s_exp) > 1e-9 * (1 + abs(s_exp)) or set(call["kwargs"]) != {"s"} or call["args"]:
-            fail("smoothing-condition", "s = %s (args %s, kwargs %s) reached FITPACK, expected s = %s only" % (got, call["args"], call["kwargs"], s_exp))
+        if call is not None:
+            got = call["kwargs"].get("s")
+            if got is None or abs(got - s_exp) > 1e-9 * (1 + abs(s_exp)) or set(call["kwargs"]) != {"s"} or call["args"]:
+                fail("smoothing-condition", "s = %s (args %s, kwargs %s) reached FITPACK, expected s = %s only" % (got, call["args"], call["kwargs"], s_exp))
         if o["x"] != c["x"] or len(o["y"]) != len(c["y"]):
             fail("shape", "x or the length changed")
             return F
-        if call["warned"]:
+        if any(k["warned"] for k in o["calls"]):
             return F      # FITPACK reports non-convergence: discarded, not judged
         res = float(np.sum((np.array(o["y"]) - y) ** 2))
         if res > s_exp * 1.001 + 1e-9 * (1 + float(np.sum(y ** 2))):
